@@ -28,6 +28,7 @@ EXTENDS Naturals, Integers, Sequences, FiniteSets
 MIN_SCORE == -858993459
 NEG == -100000000                     \* "impossible"; real scores stay far above NEG \div 2
 Max2(a, b) == IF a >= b THEN a ELSE b
+Min2(a, b) == IF a <= b THEN a ELSE b
 Max3(a, b, c) == Max2(a, Max2(b, c))
 Max4(a, b, c, d) == Max2(Max2(a, b), Max2(c, d))
 Forbidden(p) == p = MIN_SCORE
